@@ -605,33 +605,80 @@ def _region_lookup(prog):
             other.append(U(st))
     why = []
     E = None
+    ed0 = [rb.term(st.value, st) for st in ast.walk(init) if isinstance(st, ast.Assign) and U(st.targets[0]) == f"{sn}.edges"]
+    # the number of edges, as a value: linspace(a, b, COUNT) has COUNT entries
+    n_edges = None
+    if len(ed0) == 1:
+        be = pmatch(ed0[0], "linspace(_a, _b, _c)")
+        if be is not None:
+            try:
+                n_edges = anf_of(abstract(ast.parse(be["_c"], mode="eval").body, [])[0])
+            except Unsupported:
+                n_edges = None
+    ABSE = [(f"{U(ed0[0])}.size", "NE"), (f"len({U(ed0[0])})", "NE"), (f"{U(ed0[0])}.shape[0]", "NE")] if len(ed0) == 1 else []
+
+    def val(e):
+        """normal form of an integer expression in the number of edges NE (and, through linspace's count, in the layer count)"""
+        v = anf_of(abstract(e, ABSE)[0])
+        if n_edges is not None:
+            v = anf.subst(v, {("sym", "NE"): n_edges})
+        return v
+    NEv = n_edges if n_edges is not None else R.sym("NE")
     if base is None:
         why.append("no `regions` table is built")
     else:
-        m = pmatch(base, "arange(-1, _E.size)") or pmatch(base, "arange(-1, len(_E))")
-        m2 = pmatch(base, "clip(arange(-1, _E.size), 0, _E.size - 2)")
-        if m2 is not None:
-            E = m2["_E"]
-            if over or other:
-                why.append(f"extra writes into the clamped table: {sorted(over)} {other}")
-        elif m is not None:
-            E = m["_E"]
-            lo, hi = over.get("0"), over.get("-1")
-            if not (isinstance(lo, ast.Constant) and lo.value == 0):
-                why.append(f"regions[0] (points below the first edge) is `{U(lo) if lo is not None else 'left at -1'}`, not 0")
-            okhi = False
-            if hi is not None:
-                try:
-                    ha, _ = abstract(hi, [(f"{E}.size", "N"), (f"len({E})", "N")])
-                    okhi = anf_of(ha).eq(R.sym("N") - 2)
-                except Unsupported:
-                    okhi = False
-            if not okhi:
-                why.append(f"regions[-1] (points above the last edge) is `{U(hi) if hi is not None else 'left at edges.size - 1'}`, not edges.size - 2")
-            if other:
-                why.append(f"further writes into the table: {other}")
+        # the table as (first value, length):  arange(a, b) -> (a, b - a);  arange(n) -> (0, n);  +- constant shifts the values
+        def table(e):
+            if isinstance(e, ast.BinOp) and isinstance(e.op, (ast.Add, ast.Sub)):
+                l_, r_ = e.left, e.right
+                tl = table(l_)
+                if tl is not None:
+                    c_ = val(r_)
+                    return (tl[0] + c_ if isinstance(e.op, ast.Add) else tl[0] - c_, tl[1])
+                tr = table(r_)
+                if tr is not None and isinstance(e.op, ast.Add):
+                    return (tr[0] + val(l_), tr[1])
+                return None
+            if isinstance(e, ast.Call) and U(e.func) == "arange" and not e.keywords:
+                if len(e.args) == 1:
+                    return (R.const(0), val(e.args[0]))
+                if len(e.args) == 2:
+                    return (val(e.args[0]), val(e.args[1]) - val(e.args[0]))
+            return None
+        clipped = pmatch(base, "clip(_t, 0, _hi)")
+        try:
+            tb = table(ast.parse(clipped["_t"], mode="eval").body if clipped is not None else base)
+        except Unsupported:
+            tb = None
+        E = U(ed0[0]) if len(ed0) == 1 else None
+        if tb is None:
+            why.append(f"the table is `{U(base)[:120]}`, not an arange over one more entry than there are edges, starting at -1")
         else:
-            why.append(f"the table is `{U(base)[:120]}`, not arange(-1, edges.size) with both ends overridden")
+            first, length = tb
+            if not first.eq(R.const(-1)) or not length.eq(NEv + 1):
+                why.append(f"the table starts at {first} and has {length} entries; it must start at -1 and have edges.size + 1 entries")
+            if clipped is not None:
+                try:
+                    if not val(ast.parse(clipped["_hi"], mode="eval").body).eq(NEv - 2):
+                        why.append(f"the table is clipped at `{clipped['_hi']}`, not at edges.size - 2")
+                except Unsupported:
+                    why.append(f"clip bound `{clipped['_hi']}` not understood")
+                if over or other:
+                    why.append(f"extra writes into the clamped table: {sorted(over)} {other}")
+            else:
+                lo, hi = over.get("0"), over.get("-1")
+                if not (isinstance(lo, ast.Constant) and lo.value == 0):
+                    why.append(f"regions[0] (points below the first edge) is `{U(lo) if lo is not None else 'left at -1'}`, not 0")
+                okhi = False
+                if hi is not None:
+                    try:
+                        okhi = val(hi).eq(NEv - 2)
+                    except Unsupported:
+                        okhi = False
+                if not okhi:
+                    why.append(f"regions[-1] (points above the last edge) is `{U(hi) if hi is not None else 'left at edges.size - 1'}`, not edges.size - 2")
+                if other:
+                    why.append(f"further writes into the table: {other}")
     ed = [rb.term(st.value, st) for st in ast.walk(init) if isinstance(st, ast.Assign) and U(st.targets[0]) == f"{sn}.edges"]
     if E is not None and not (len(ed) == 1 and U(ed[0]) == E):
         why.append(f"the table is sized from `{E}`, which is not the edge array `{U(ed[0]) if ed else None}`")
